@@ -260,10 +260,24 @@ func (s *Stream) decode(r io.Reader, parsedTypes TypeMap, p2p bool) (TypeMap,
 		default:
 			// If the caller provided an initialized TypeMap, record
 			// the encoded bytes.
+			// A length that doesn't fit into an int64 can never
+			// be satisfied by the reader. It would also wrap to a
+			// negative count below, making io.CopyN succeed
+			// without consuming the record's value.
+			if length > math.MaxInt64 {
+				return nil, io.ErrUnexpectedEOF
+			}
+
 			var b *bytes.Buffer
 			writer := io.Discard
 			if parsedTypes != nil {
-				b = bytes.NewBuffer(make([]byte, 0, length))
+				// Don't trust the declared length when
+				// pre-allocating, the buffer grows on demand.
+				capHint := length
+				if capHint > MaxRecordSize {
+					capHint = MaxRecordSize
+				}
+				b = bytes.NewBuffer(make([]byte, 0, capHint))
 				writer = b
 			}
 
